@@ -291,3 +291,10 @@ def run(ctx):
                           "case": {"op": "c07rand", "seed": b["seed"], "k": b["k"]}})
     ctx.log("trace: %d events, %d rejected" % (len(events), len(r.tagged.get("BADEVENT", []))))
     ctx.handle_violations(viols)
+
+    # 6. extension: wedge relations at a shared vertex on the integer lattice (spec/Wedges.tla)
+    try:
+        from checks import ext_wedge
+        ext_wedge.run_ext(ctx)
+    except vlib.Infra:
+        raise
